@@ -633,6 +633,9 @@ class VarsManager(object):
         """
         if self.complex_vars[name] != False:  # if already polar
             return
+        for l in self.same_list:
+            if name + "r" in l or name + "i" in l:
+                return  # a component is shared with other variables: keep xy
         x = self.variables[name + "r"]
         y = self.variables[name + "i"]
         r = tf.sqrt(x * x + y * y)
